@@ -639,22 +639,24 @@ def _enclosing(node):
 # ---------------------------------------------------------------------------
 
 
+from .resolve import rtext as rtext_
+
+
 def rule_subspaces_from_indices(rep: Report, repo: Repo):
     """`subspace_indices` must designate, for block b, the identity columns {k : indices[k] == b} IN INCREASING k,
     i.e. exactly the eigenvector matrices np.eye(n)[:, indices == b] the property compares with."""
     R = "E6.indices"
     f = repo.find("block_diagonalization::_subspaces_from_indices", R)
     loc = lambda n: repo.loc("block_diagonalization", n)
-    asg = {}
-    for n in own_nodes(f):
-        if isinstance(n, ast.Assign) and isinstance(n.targets[0], ast.Name):
-            asg[n.targets[0].id] = n.value
-    ev = asg.get("eigvecs")
-    ok = ev is not None and "identity(dim" in norm(ev) or (ev is not None and "np.eye(dim" in norm(ev))
-    rep.check(ok, R, "_subspaces_from_indices starts from the identity basis of dimension len(subspace_indices)", norm(ev)[:70] if ev is not None else "missing", loc(f))
-    se = asg.get("subspace_eigenvectors")
+    from .resolve import env_at, resolved
+    rets = [n for n in own_nodes(f) if isinstance(n, ast.Return) and n.value is not None]
+    # the non-symbolic return gives the bases; the symbolic one converts the same bases to dense arrays
+    plain = [r for r in rets if not (isinstance(getattr(r, "_parent", None), ast.If) and "symbolic" in norm(r._parent.test))]
+    if len(plain) != 1:
+        raise AnalysisError(R, f"_subspaces_from_indices: {len(plain)} plain returns")
+    se = resolved(plain[0].value, env_at(plain[0], f))
     comp = None
-    if isinstance(se, ast.Call) and call_name(se) == "tuple" and se.args and isinstance(se.args[0], (ast.GeneratorExp, ast.ListComp)):
+    if isinstance(se, ast.Call) and call_name(se) in ("tuple", "list") and se.args and isinstance(se.args[0], (ast.GeneratorExp, ast.ListComp)):
         comp = se.args[0]
     elif isinstance(se, (ast.ListComp, ast.GeneratorExp)):
         comp = se
@@ -662,17 +664,22 @@ def rule_subspaces_from_indices(rep: Report, repo: Repo):
         raise AnalysisError(R, "_subspaces_from_indices: construction of the per-block bases not understood")
     gen = comp.generators[0]
     elt = comp.elt
-    if not (isinstance(elt, ast.Subscript) and norm(elt.value) == "eigvecs" and isinstance(elt.slice, ast.Tuple)
+    if not (isinstance(elt, ast.Subscript) and isinstance(elt.slice, ast.Tuple)
             and len(elt.slice.elts) == 2 and norm(elt.slice.elts[0]) == ":"):
-        raise AnalysisError(R, f"_subspaces_from_indices: block basis `{norm(elt)[:60]}` is not a column selection of the identity")
+        raise AnalysisError(R, f"_subspaces_from_indices: block basis `{norm(elt)[:60]}` is not a column selection")
+    base = elt.value
+    while isinstance(base, ast.Call) and call_name(base) in ("sparse.csr_array", "sparse.csc_array", "np.asarray") and len(base.args) == 1:
+        base = base.args[0]
+    DIM = "len(subspace_indices)"
+    ident = isinstance(base, ast.Call) and call_name(base) in ("sparse.identity", "sparse.eye", "np.eye", "np.identity") and base.args
+    if not ident:
+        raise AnalysisError(R, f"_subspaces_from_indices: `{norm(elt.value)[:60]}` is not recognised as an identity matrix")
+    rep.check(norm(base.args[0]) == DIM, R, "_subspaces_from_indices starts from the identity basis of dimension len(subspace_indices)",
+              norm(elt.value)[:90], loc(plain[0]))
     sel = elt.slice.elts[1]
     var = norm(gen.target)
-
-    def resolve(e, depth=0):
-        while isinstance(e, ast.Name) and e.id in asg and depth < 5:
-            e = asg[e.id]
-            depth += 1
-        return e
+    resolve = lambda e, depth=0: e
+    se_src = plain[0]
 
     verdict, why = None, ""
     mask_forms = (f"subspace_indices == {var}", f"{var} == subspace_indices")
@@ -680,7 +687,7 @@ def rule_subspaces_from_indices(rep: Report, repo: Repo):
     if it in ("range(np.max(subspace_indices) + 1)", "range(subspace_indices.max() + 1)", "range(max(subspace_indices) + 1)"):
         s = sel
         txt = norm(s)
-        ordered = {f"np.compress({m}, np.arange(dim))" for m in mask_forms} | {f"np.flatnonzero({m})" for m in mask_forms} | \
+        ordered = {f"np.compress({m}, np.arange(len(subspace_indices)))" for m in mask_forms} | {f"np.flatnonzero({m})" for m in mask_forms} | \
             {f"np.where({m})[0]" for m in mask_forms} | {f"np.nonzero({m})[0]" for m in mask_forms} | set(mask_forms) | \
             {f"({m}).nonzero()[0]" for m in mask_forms}
         if txt in ordered:
@@ -707,11 +714,11 @@ def rule_subspaces_from_indices(rep: Report, repo: Repo):
     if verdict is None:
         raise AnalysisError(R, "_subspaces_from_indices: " + why)
     if verdict:
-        rep.ok(R, "_subspaces_from_indices: block b = identity columns {k : subspace_indices[k] == b} in increasing k", why, loc(se))
+        rep.ok(R, "_subspaces_from_indices: block b = identity columns {k : subspace_indices[k] == b} in increasing k", why, loc(se_src))
     else:
-        rep.fail(R, f"_subspaces_from_indices does not keep the states of a block in their given order: `{norm(se)[:90]}`", why, loc(se))
-    sym = [n for n in own_nodes(f) if isinstance(n, ast.If) and norm(n.test) == "symbolic"]
-    ok = len(sym) == 1 and norm(sym[0].body[0]) == "return tuple((subspace.toarray() for subspace in subspace_eigenvectors))"
+        rep.fail(R, f"_subspaces_from_indices does not keep the states of a block in their given order: `{norm(se)[:90]}`", why, loc(se_src))
+    sym = [r for r in rets if r is not plain[0]]
+    ok = len(sym) == 1 and rtext_(sym[0].value, env_at(sym[0], f)) in (f"tuple((_v1.toarray() for _v1 in {norm(se)}))", f"tuple((_v0.toarray() for _v0 in {norm(se)}))")
     rep.check(ok, R, "_subspaces_from_indices: symbolic problems get the same bases as dense arrays", "", loc(f))
     # the caller uses these bases as both left and right vectors
     otb = repo.find("block_diagonalization::operator_to_BlockSeries", R)
